@@ -660,6 +660,56 @@ func isDotStarLiteralSuffix(re *syntax.Regexp) bool {
 	return true
 }
 
+// suffixesCoverTail reports whether the extracted suffix literals are exactly the
+// strings that can follow `.*` in a pattern accepted by isDotStarLiteralSuffix. The
+// extractor may stop early when captures split the tail (`.*\.(t)xt` yields "xt",
+// `.*(a)(b)(c)d` yields "d"); skipping verification would then accept any haystack
+// that merely ends in the shorter literal.
+func suffixesCoverTail(re *syntax.Regexp, suffixes *literal.Seq) bool {
+	if suffixes == nil {
+		return false
+	}
+	for re.Op == syntax.OpCapture && len(re.Sub) > 0 {
+		re = re.Sub[0]
+	}
+	tails := []string{""}
+	for _, sub := range re.Sub[1:] {
+		for sub.Op == syntax.OpCapture && len(sub.Sub) > 0 {
+			sub = sub.Sub[0]
+		}
+		alts := []*syntax.Regexp{sub}
+		if sub.Op == syntax.OpAlternate {
+			alts = sub.Sub
+		}
+		next := make([]string, 0, len(tails)*len(alts))
+		for _, t := range tails {
+			for _, a := range alts {
+				for a.Op == syntax.OpCapture && len(a.Sub) > 0 {
+					a = a.Sub[0]
+				}
+				next = append(next, t+string(a.Rune))
+			}
+		}
+		tails = next
+	}
+	if suffixes.Len() != len(tails) {
+		return false
+	}
+	for i := 0; i < suffixes.Len(); i++ {
+		found := false
+		for _, t := range tails {
+			if t == string(suffixes.Get(i).Bytes) {
+				found = true
+				break
+			}
+		}
+		if !found {
+			return false
+		}
+	}
+	return true
+}
+
 // isExactLiteralTail reports whether re is a case-sensitive literal or, if allowAlt,
 // an alternation of case-sensitive literals (captures are unwrapped).
 func isExactLiteralTail(re *syntax.Regexp, allowAlt bool) bool {
